@@ -428,6 +428,22 @@ func (m *Machine) fsIntrinsic(name string, args []Val) (Val, bool) {
 			fs.dir[to] = ino
 			nw, _ := m.listNames()
 			fs.commits = append(fs.commits, commitRec{m.curProc(), old, nw})
+			if fs.monitors["locks"] {
+				// a commit that drops tables from the list (a compaction) must hold their locks
+				kept := map[string]bool{}
+				for _, n := range nw {
+					kept[n] = true
+				}
+				for _, n := range old {
+					if kept[n] {
+						continue
+					}
+					lk := fs.dir[filepath.Join(filepath.Dir(to), n+".lock")]
+					if lk == nil || lk.creator != m.curProc() {
+						m.monitorViolation("commit-drops-table-without-its-lock", fmt.Sprintf("P%d removes %s from tables.list without holding %s.lock", m.curProc(), n, n))
+					}
+				}
+			}
 		} else {
 			delete(fs.dir, from)
 			fs.dir[to] = ino
